@@ -109,9 +109,14 @@ def isImport (n : Node) : Bool := match n.kind with | .import _ => true | _ => f
 def isInstantiation (n : Node) : Bool := match n.kind with | .instantiation .. => true | _ => false
 def isDefinition (n : Node) : Bool := match n.kind with | .definition => true | _ => false
 
+/-- the argument edges among incoming edges: `(import name, source)` -/
+def argsOf : List (EdgeW × Nat) → List (Str × Nat)
+  | [] => []
+  | (.arg _ nm, s) :: r => (nm, s) :: argsOf r
+  | _ :: r => argsOf r
+
 /-- `get_instantiation_arguments`: incoming argument edges in adjacency order -/
-def args (n : Node) : List (Str × Nat) :=
-  n.inc.filterMap fun (w, s) => match w with | .arg _ nm => some (nm, s) | _ => none
+def args (n : Node) : List (Str × Nat) := argsOf n.inc
 
 /-- `get_alias_source`: the first incoming alias edge -/
 def aliasSource (n : Node) : Option (Nat × Str) :=
